@@ -33,6 +33,7 @@ def run(ctx, repo):
     ctx.call(R6.r_cow_minimal, repo)
     ctx.call(R6B.r_yamlobject_registers_all, repo)
     ctx.call(RSB.r_class_composition, repo)
+    ctx.call(R6B.r_yamlobject_loaders, repo)
 
 
 if __name__ == '__main__':
